@@ -72,6 +72,90 @@ def _vars_of(e):
     return _VARS_CACHE[key][1]
 
 
+def _pseudo(name, lo=0.5, hi=1.5):
+    import zlib
+    return lo + (hi - lo) * ((zlib.crc32(name.encode()) % 100003) / 100003.0)
+
+
+def testval(c, e, _memo=None):
+    """float value of term e at the path's fixed pseudo-random test point (used only to decide which pairs of
+    abstraction arguments can possibly be equal, i.e. for which pairs a congruence axiom is worth adding)"""
+    memo = c.tv_memo
+    key = e.get_id()
+    hit = memo.get(key)
+    if hit is not None and hit[0].eq(e):
+        return hit[1]
+    if z3.is_rational_value(e):
+        v = e.numerator_as_long() / e.denominator_as_long()
+    elif z3.is_int_value(e):
+        v = float(e.as_long())
+    elif z3.is_const(e):
+        nm = e.decl().name()
+        if nm not in c.tv:
+            if nm == "PI":
+                c.tv[nm] = math.pi
+            else:
+                lo, hi = c.input_meta.get(nm, (None, None))
+                lo = float(lo) if lo is not None and not isinstance(lo, SR) else 0.5
+                hi = float(hi) if hi is not None and not isinstance(hi, SR) else lo + 1.0
+                c.tv[nm] = _pseudo(nm, lo + 0.01 * (hi - lo), hi - 0.01 * (hi - lo)) if hi > lo else lo
+        v = c.tv[nm]
+    else:
+        k = e.decl().kind()
+        ch = [testval(c, x) for x in e.children()]
+        try:
+            if k == z3.Z3_OP_ADD:
+                v = sum(ch)
+            elif k == z3.Z3_OP_SUB:
+                v = ch[0] - sum(ch[1:])
+            elif k == z3.Z3_OP_UMINUS:
+                v = -ch[0]
+            elif k == z3.Z3_OP_MUL:
+                v = 1.0
+                for x in ch:
+                    v *= x
+            elif k == z3.Z3_OP_DIV:
+                v = ch[0] / ch[1]
+            elif k == z3.Z3_OP_POWER:
+                v = ch[0] ** ch[1]
+            elif k == z3.Z3_OP_ITE:
+                v = ch[1] if _testbool(c, e.children()[0]) else ch[2]
+            elif k == z3.Z3_OP_TO_REAL:
+                v = ch[0]
+            else:
+                v = float("nan")
+        except (ZeroDivisionError, OverflowError, ValueError):
+            v = float("nan")
+    if len(memo) > 200000:
+        memo.clear()
+    memo[key] = (e, v)
+    return v
+
+
+def _testbool(c, b):
+    k = b.decl().kind()
+    ch = b.children()
+    if z3.is_true(b):
+        return True
+    if z3.is_false(b):
+        return False
+    if k == z3.Z3_OP_NOT:
+        return not _testbool(c, ch[0])
+    if k == z3.Z3_OP_AND:
+        return all(_testbool(c, x) for x in ch)
+    if k == z3.Z3_OP_OR:
+        return any(_testbool(c, x) for x in ch)
+    x, y = testval(c, ch[0]), testval(c, ch[1])
+    return {z3.Z3_OP_LE: x <= y, z3.Z3_OP_LT: x < y, z3.Z3_OP_GE: x >= y, z3.Z3_OP_GT: x > y,
+            z3.Z3_OP_EQ: x == y, z3.Z3_OP_DISTINCT: x != y}.get(k, False)
+
+
+def _close_tv(a, b):
+    if a != a or b != b:
+        return True          # not evaluable: keep the pair
+    return abs(a - b) <= 1e-7 * (1 + abs(a) + abs(b))
+
+
 def _is_nonlinear(e):
     seen, stack = set(), [e]
     while stack:
@@ -126,6 +210,8 @@ class Ctx:
         self.check_defined = True
         self.notes: list[str] = []
         self.known_covers: set = set()      # cover goals already met on an earlier path of this exploration
+        self.tv: dict = {}                  # test-point values of variables (see testval)
+        self.tv_memo: dict = {}
 
     # -- solver plumbing
     def _check(self, solver, *extra):
@@ -704,6 +790,8 @@ class SR:
         if c.feasible(outside) != "unsat":
             raise Abort("out_of_bound", "wrap count may lie outside the window of ±%d periods" % W)
         w = c.fresh("mod")
+        tx, tm = testval(c, x), testval(c, mz)
+        c.tv[w.decl().name()] = (tx % tm) if tm == tm and tx == tx and tm > 0 else float("nan")
         c.add(z3.And(w >= 0, w < mz, z3.Or(*[w == x - k * mz for k in range(-W, W + 1)])), kind="def",
               defines=[w.decl().name()])
         c.apps["mod"].append((key, x, mz, w))
@@ -832,6 +920,8 @@ class SR:
             if k == key:
                 return SR(y)
         y = c.fresh("cbrt")
+        tq = testval(c, toz(self))
+        c.tv[y.decl().name()] = max(tq, 0.0) ** (1 / 3) if tq == tq else float("nan")
         c.add(z3.And(y >= 0, y * y * y == toz(self)), kind="def", defines=[y.decl().name()])
         c.apps["cbrt"].append((key, y))
         return SR(y)
@@ -848,8 +938,17 @@ class SR:
                 return SR(ay)
         y = c.fresh(fname)
         yn = y.decl().name()
+        tx = testval(c, x)
+        try:
+            c.tv[yn] = float(fconc(tx)) if tx == tx else float("nan")
+        except (ValueError, OverflowError):
+            c.tv[yn] = float("nan")
         for ax, ay in apps:
-            c.add(z3.Implies(ax == x, ay == y), kind="def", defines=[yn, ay.decl().name()])
+            # functional consistency; for `exp` (hundreds of applications in the kernel smoother) pairs whose
+            # arguments differ at the path's test point cannot be identically equal and their axiom is omitted
+            # (fewer axioms only make proofs harder, never unsound)
+            if fname != "exp" or _close_tv(testval(c, ax), tx):
+                c.add(z3.Implies(ax == x, ay == y), kind="def", defines=[yn, ay.decl().name()])
         if axioms:
             axioms(c, x, y, yn, apps)
         apps.append((x, y))
@@ -880,6 +979,8 @@ class SR:
                 return SR(s if which == "sin" else co)
         s, co = c.fresh("sin"), c.fresh("cos")
         names = [s.decl().name(), co.decl().name()]
+        tx = testval(c, x)
+        c.tv[names[0]], c.tv[names[1]] = (math.sin(tx), math.cos(tx)) if tx == tx else (float("nan"),) * 2
         if TRIG_IDENTITY:
             c.add(s * s + co * co == 1, kind="def", defines=names)
         else:
@@ -964,6 +1065,7 @@ class SqrtSR(SR):
                     self._m = y
                     return y
             y = c.fresh("sqrt")
+            c.tv[y.decl().name()] = math.sqrt(max(testval(c, qz), 0.0)) if testval(c, qz) == testval(c, qz) else float("nan")
             c.add(z3.And(y >= 0, y * y == qz), kind="def", defines=[y.decl().name()])
             c.apps["sqrt"].append((key, y))
             self._m = y
@@ -1025,6 +1127,8 @@ class SqrtSR(SR):
 
 def _def_fail(op, msg):
     c = ctx()
+    if not c.check_defined:
+        return
     c.obligations.append(dict(name=f"def:{op}@{_site()}", verdict="sat", how="concrete", model=None,
                               kind="defined", msg=msg))
 
@@ -1068,6 +1172,8 @@ def arctan2(y, x):
         if ay.get_id() == yz.get_id() and ax.get_id() == xz.get_id():
             return SR(r)
     r = c.fresh("atan2")
+    ty, tx = testval(c, yz), testval(c, xz)
+    c.tv[r.decl().name()] = math.atan2(ty, tx) if ty == ty and tx == tx else float("nan")
     for ay, ax, r2 in apps:
         c.add(z3.Implies(z3.And(ay == yz, ax == xz), r2 == r), kind="def",
               defines=[r.decl().name(), r2.decl().name()])
